@@ -10,6 +10,12 @@ def run(tier, argv):
     rep = vlib.Report(PROP, tier)
     work = vlib.Work(PROP)
     quick = tier == "quick"
+    # the implementation-shaped pipeline over the implementation-shaped ordered map: order independent and equal to the requirement
+    r = vlib.tlc(work, "Pipeline", "Pipeline.cfg", timeout=1200)
+    rep.add_tlc(r, "Pipeline over OMapImpl (OrderIndependent, MatchesRequirement) on all rule lists <= 3 of 8 instances")
+    rv = vlib.tlc(work, "Pipeline", "Pipeline.cfg", consts={"FilterRangesWhileDeleting": "TRUE"}, allow_violation=True, timeout=1200)
+    if not rv.violation:
+        raise vlib.Infra("vacuous: switch FilterRangesWhileDeleting no longer makes the pipeline order dependent")
     hbin = vlib.build_harness(work)
     raw = work.path("gen.txt")
     r = vlib.tlc(work, "GenChk", "GenChk.cfg", consts={"MaxRules": "2" if quick else "3"}, to_file=raw, timeout=6000, heap="16g")
